@@ -37,7 +37,7 @@ func (vc *VC) inPkg(f *ssa.Function) bool {
 }
 
 func isSpecHelper(name string) bool {
-	return name == "__forall" || name == "__exists" || name == "__old" || name == "__trigger" || name == "__has" || name == "__same" || name == "__fresh" || name == "__disjoint"
+	return name == "__forall" || name == "__exists" || name == "__old" || name == "__trigger" || name == "__has" || name == "__get" || name == "__same" || name == "__fresh" || name == "__disjoint"
 }
 
 func (vc *VC) isSpecDecl(name string) *SpecDecl {
@@ -196,6 +196,14 @@ func (fr *Frame) staticCall(t *ssa.Call, callee *ssa.Function, bindings []Val) {
 			has, _, _, _, _ := vc.mapHeaps(mt)
 			m := args[0].T
 			fr.vals[t] = Val{T: and(not(isNil(m)), sel(vc.heapRead(fr.st, has, m), args[1].T, SBool))}
+			return
+		case name == "__get":
+			// the stored value of a key that is present (unspecified for a missing key): a plain
+			// select, usable in triggers
+			mt := vc.rt(t.Common().Args[0].Type()).Underlying().(*types.Map)
+			_, val, _, _, vs := vc.mapHeaps(mt)
+			m := args[0].T
+			fr.vals[t] = Val{T: sel(vc.heapRead(fr.st, val, m), args[1].T, vs)}
 			return
 		}
 		if d := vc.isSpecDecl(name); d != nil && callee.Signature.Recv() == nil {
@@ -514,6 +522,15 @@ func (fr *Frame) quantifier(forall bool, clo Val) Term {
 	if !forall {
 		q = "exists"
 	}
+	// the solvers reject patterns that contain logical connectives or ite (e.g. a map read)
+	var okTrigs []string
+	for _, p := range trigs {
+		if strings.Contains(p, "(ite ") || strings.Contains(p, "(and ") || strings.Contains(p, "(not ") || strings.Contains(p, "(or ") || strings.Contains(p, "(=> ") {
+			continue
+		}
+		okTrigs = append(okTrigs, p)
+	}
+	trigs = okTrigs
 	if len(trigs) > 0 {
 		var sb strings.Builder
 		for _, p := range trigs {
@@ -1421,8 +1438,10 @@ func (fr *Frame) appendVals(s Term, elem types.Type, vals []Term, name string) T
 	rcap := ite(inplace, scap(s), newCap)
 	hs := map[string]bool{}
 	vc.heapsOfType(elem, hs)
+	oldHeaps := map[string]Term{}
 	for _, h := range sortedKeys(hs) {
 		oldH := vc.heapGet(fr.st, h)
+		oldHeaps[h] = oldH
 		_, vs := arrayParts(oldH.Sort)
 		roots := vc.heapRoots(fr.st, h)
 		nh := vc.freshConst(h, oldH.Sort)
@@ -1436,7 +1455,29 @@ func (fr *Frame) appendVals(s Term, elem types.Type, vals []Term, name string) T
 	for k, v := range vals {
 		vc.storeAt(fr.st, elemPtr(rptr, app(bv, "bvadd", slen(s), bvLit(uint64(k), 64))), elem, v)
 	}
+	fr.appendKeepsPrefix(hs, oldHeaps, s, rptr)
 	return vc.name(name, mkSlice(rptr, newLen, rcap))
+}
+
+// appendKeepsPrefix states a consequence of the append axioms with a pattern on the *old*
+// element: element j < len(s) of the result is element j of s. It makes the read of the result
+// available as a ground term whenever the old element is mentioned (needed to carry "exists k ::
+// s[k] == x" across an append).
+func (fr *Frame) appendKeepsPrefix(hs map[string]bool, oldHeaps map[string]Term, s, rptr Term) {
+	vc := fr.vc
+	for _, h := range sortedKeys(hs) {
+		if !strings.HasPrefix(h, "E_") {
+			continue
+		}
+		oldH, ok := oldHeaps[h]
+		if !ok {
+			continue
+		}
+		fin := vc.heapGet(fr.st, h)
+		vc.asserts = append(vc.asserts,
+			fmt.Sprintf("(forall ((j (_ BitVec 64))) (! (=> (bvult j %[1]s) (= (select %[2]s (elemptr %[3]s j)) (select %[4]s (elemptr %[5]s j)))) :pattern ((select %[4]s (elemptr %[5]s j))) :pattern ((elemptr %[5]s j))))",
+				slen(s).S, fin.S, rptr.S, oldH.S, sptr(s).S))
+	}
 }
 
 // ---- builtins -------------------------------------------------------------------------------
@@ -1564,8 +1605,10 @@ func (fr *Frame) appendBuiltin(t *ssa.Call) {
 	}
 	// copy phase (only in the reallocation case): the new heap is defined pointwise from the old
 	// one, with a pattern that matches every read of the new heap.
+	oldHeaps := map[string]Term{}
 	for _, h := range sortedKeys(hs) {
 		oldH := vc.heapGet(fr.st, h)
+		oldHeaps[h] = oldH
 		_, vs := arrayParts(oldH.Sort)
 		roots := vc.heapRoots(fr.st, h)
 		nh := vc.freshConst(h, oldH.Sort)
@@ -1576,6 +1619,7 @@ func (fr *Frame) appendBuiltin(t *ssa.Call) {
 		fr.st.heaps[h] = vc.name(h, ite(inplace, oldH, nh))
 		fr.st.roots[h] = append(append([]string{}, roots...), nh.S)
 	}
+	defer func() { fr.appendKeepsPrefix(hs, oldHeaps, s, rptr) }()
 	if cnt >= 0 {
 		for k := 0; k < cnt; k++ {
 			v := vc.loadAt(fr.st, elemPtr(sptr(add), bvLit(uint64(k), 64)), st.Elem())
